@@ -151,6 +151,38 @@ def h_encoded(ctx, n, skeleton=None):
             ctx.check("recompose-fragment", sym_eq(u2.raw_fragment, u.raw_fragment))
 
 
+def h_recompose(ctx, n, skeleton=None):
+    """for URLs made by the auto-encoding constructor the raw accessors re-compose to str(url)"""
+    import urlkit
+    s = urlkit.text(ctx, skeleton)
+    P = ctx.P
+    r = call(P.URL, s)
+    ctx.observe("URL", r[:1] if r[0] == "ok" else r[:2])
+    if r[0] != "ok":
+        return
+    u = r[1]
+    parts = call(lambda: (u.scheme, u.raw_user, u.raw_password, u.host_subcomponent, u.explicit_port, u.raw_path, u.raw_query_string, u.raw_fragment,
+                          u.raw_authority, u.is_default_port()))
+    st = call(str, u)
+    if parts[0] != "ok" or st[0] != "ok":
+        return
+    scheme, user, pw, hostsub, port, path, query, frag, auth, isdef = parts[1]
+    ctx.observe("parts", parts[1])
+    if not auth:
+        return          # the skeletons of this family all have an authority
+    a = ""
+    if user is not None or pw is not None:
+        a = (user or "") + (":" + pw if pw is not None else "") + "@"
+    a = a + (hostsub or "")
+    if port is not None and not isdef:
+        a = a + ":" + str(port)
+    p = u._path
+    if not p and (query or frag):
+        p = "/"
+    exp = (scheme + ":" if scheme else "") + "//" + a + p + ("?" + query if query else "") + ("#" + frag if frag else "")
+    ctx.check("raw-accessors-recompose-to-str", sym_eq(st[1], exp))
+
+
 SKELETONS_NETLOC = [
     ["u", None, "p", None, "h", None, "8", None],
     [None, "@", None, ":", None],
@@ -177,6 +209,9 @@ def families(tier):
         fams.append(Family("split_netloc/free/n=%d" % n, h_netloc, dict(n=n)))
     for n in range(0, (3 if q else 5) + 1):
         fams.append(Family("URL-encoded/free/n=%d" % n, h_encoded, dict(n=n)))
+    for i, sk in enumerate([["http://u", ("in", ":@a"), "@h:", ("in", "0189"), "/p?q#f"], ["x://", ("in", "u:@"), ("in", "p:@"), "h:", ("in", "018"), ("in", "0/?")],
+                            ["https://[::1]:44", ("in", "03"), "/", None], ["http://h", ("in", "/?#"), None]]):
+        fams.append(Family("recompose/skeleton-%d" % i, h_recompose, dict(n=0, skeleton=sk)))
     for i, sk in enumerate(SKELETONS_NETLOC):
         fams.append(Family("split_netloc/skeleton-%d" % i, h_netloc, dict(n=0, skeleton=sk)))
     for i, sk in enumerate(SKELETONS_URL):
